@@ -228,8 +228,12 @@ func conRun(c conCase) (obs string, stderr string) {
 		for _, p := range c.env {
 			ex = append(ex, fmt.Sprintf("%q", p))
 		}
+		extra := ""
+		if c.cmd == "M" {
+			extra = "  dev = \"sqlite://dev?mode=memory\"\n  migration {\n    dir = \"file://migs\"\n  }\n"
+		}
 		os.WriteFile(filepath.Join(dir, "atlas.hcl"), []byte(fmt.Sprintf(
-			"env \"e\" {\n  url = %q\n  src = \"file://schema.hcl\"\n  exclude = [%s]\n}\n", "sqlite://"+dbA, strings.Join(ex, ", "))), 0o644)
+			"env \"e\" {\n  url = %q\n  src = \"file://schema.hcl\"\n%s  exclude = [%s]\n}\n", "sqlite://"+dbA, extra, strings.Join(ex, ", "))), 0o644)
 	}
 	var args []string
 	switch c.cmd {
@@ -244,6 +248,21 @@ func conRun(c conCase) (obs string, stderr string) {
 		args = []string{"schema", "diff", "--from", "sqlite://" + dbA, "--to", "sqlite://" + dbB, "--format", conDiffTemplate}
 		if c.useEnv {
 			args = append(args, "--env", "e")
+		}
+	case "C":
+		args = []string{"schema", "clean", "--auto-approve"}
+		if c.useEnv {
+			args = append(args, "--env", "e")
+		} else {
+			args = append(args, "-u", "sqlite://"+dbA)
+		}
+	case "M":
+		os.MkdirAll(filepath.Join(dir, "migs"), 0o755)
+		args = []string{"migrate", "diff", "m1"}
+		if c.useEnv {
+			args = append(args, "--env", "e")
+		} else {
+			args = append(args, "--dir", "file://migs", "--to", "file://schema.hcl", "--dev-url", "sqlite://dev?mode=memory")
 		}
 	case "A":
 		args = []string{"schema", "apply", "--dry-run"}
@@ -322,6 +341,14 @@ func conRun(c conCase) (obs string, stderr string) {
 		}
 		return "ok from=[" + strings.Join(fs, " ") + "] to=[" + strings.Join(ts, " ") + "] ch=" + a, ""
 	default:
+		if c.cmd == "M" { // the planned statements are in the migration file
+			r.Stdout = ""
+			fs, _ := filepath.Glob(filepath.Join(dir, "migs", "*.sql"))
+			for _, f := range fs {
+				b, _ := os.ReadFile(f)
+				r.Stdout += string(b) + "\n"
+			}
+		}
 		var as []string
 		idxTab := map[string]string{}
 		for _, t := range c.from {
@@ -348,6 +375,21 @@ func conRun(c conCase) (obs string, stderr string) {
 				as = append(as, "?("+hexs(l)+")")
 			}
 		}
+		// an AddTable carries its indexes: CREATE INDEX on a table created by the same plan is part of +T
+		created := map[string]bool{}
+		for _, x := range as {
+			if strings.HasPrefix(x, "+T(") {
+				created[strings.TrimSuffix(strings.TrimPrefix(x, "+T("), ")")] = true
+			}
+		}
+		var keep []string
+		for _, x := range as {
+			if strings.HasPrefix(x, "+I(") && created[strings.SplitN(strings.TrimPrefix(x, "+I("), ".", 2)[0]] {
+				continue
+			}
+			keep = append(keep, x)
+		}
+		as = keep
 		sort.Strings(as)
 		a := strings.Join(as, ",")
 		if a == "" {
@@ -397,16 +439,16 @@ func runConsumers(w *out.W, tier string) {
 	}
 	A2 := append(append(cState{}, A...), tab("a,b", []string{"c1"}), tab("a", []string{"c1"}))
 	lists := [][]string{
-		{"t9", "t3"},                       // only the SECOND pattern matches anything
-		{"t3", "t4"},                       // each table by exactly one pattern
-		{"t1.c4", "t2.j*[type=index]"},     // children; second pattern with a selector
-		{"x*", "nope", "t3", "users"},      // third and fourth
-		{"t4", "t3", "t1", "t2", "users"},  // everything: synced
-		{"t[34]", "*.email"},               //
-		{"users.email", "t1.c4", "t4"},     //
-		{"nope", "t2.j1"},                  //
-		{"t3"},                             // one pattern (control)
-		{"t4", "t3"},                       // the order swapped (first one matches only the desired state)
+		{"t9", "t3"},                         // only the SECOND pattern matches anything
+		{"t3", "t4"},                         // each table by exactly one pattern
+		{"t1.c4", "t2.j*[type=index]"},       // children; second pattern with a selector
+		{"x*", "nope", "t3", "users"},        // third and fourth
+		{"t4", "t3", "t1", "t2", "users"},    // everything: synced
+		{"t[34]", "*.email"},                 //
+		{"users.email", "t1.c4", "t4"},       //
+		{"nope", "t2.j1"},                    //
+		{"t3"},                               // one pattern (control)
+		{"t4", "t3"},                         // the order swapped (first one matches only the desired state)
 		{"*.c4[type=column]", "t?.j2", "t3"}, //
 	}
 	if tier == "thorough" {
@@ -442,6 +484,25 @@ func runConsumers(w *out.W, tier string) {
 			conCase{cmd: cmd, route: "Q", flags: []string{"t3,"}, list: []string{"t3"}, from: A, to: B, group: cmd + "/Qflag-trailing"},
 		)
 	}
+	// the two commands that take --env but have no exclude flag: the env list is never read
+	for _, cmd := range []string{"C", "M"} {
+		f, t := A, cState{}
+		if cmd == "M" {
+			f, t = cState{}, B
+		}
+		cases = append(cases,
+			conCase{cmd: cmd, route: "R0", from: f, to: t, group: cmd + "/none"},
+			conCase{cmd: cmd, route: "R0e", useEnv: true, from: f, to: t, group: cmd + "/none"},
+			conCase{cmd: cmd, route: "X", flags: []string{"t3"}, from: f, to: t, group: cmd + "/flag"}, // unknown flag: an error
+		)
+		ls := [][]string{{"t9", "t3"}, {"t4", "t3", "users"}, {"t3"}, {"*"}}
+		if cmd == "M" {
+			ls = [][]string{{"t9", "t4"}, {"t3", "t4", "users"}, {"t4"}, {"*"}}
+		}
+		for li, l := range ls {
+			cases = append(cases, conCase{cmd: cmd, route: "E", env: l, useEnv: true, list: l, from: f, to: t, group: fmt.Sprintf("%s/L%d", cmd, li)})
+		}
+	}
 	w.Rule = "non-trivial = the list changes the observation of the command (differs from the run without any list); keyed by (command, list)"
 	w.Exhaust = true
 	w.Set("exhaustive_bound", fmt.Sprintf("3 commands (schema inspect, schema diff, schema apply --dry-run) x %d exclude lists (2-5 patterns, the matching pattern never only the first) x routes F1 (one flag value), F2 (one occurrence per pattern), F3 (two occurrences), E (env block), EF (env block with another list + flag) + no list + 7 values the csv reader of pflag changes; real CLI on SQLite", len(lists)))
@@ -467,19 +528,19 @@ func runConsumers(w *out.W, tier string) {
 		obs := results[i].obs
 		w.Case(id, conCaseLine(c), []string{obs})
 		w.Count("consumers:" + c.cmd + ":" + c.route)
-		desc := fmt.Sprintf("cmd=%s route=%s flags=%q env=%q(use=%v) list=%q", map[string]string{"I": "schema inspect", "D": "schema diff", "A": "schema apply --dry-run"}[c.cmd], c.route, c.flags, c.env, c.useEnv, c.list)
+		desc := fmt.Sprintf("cmd=%s route=%s flags=%q env=%q(use=%v) list=%q", map[string]string{"I": "schema inspect", "D": "schema diff", "A": "schema apply --dry-run", "C": "schema clean --auto-approve", "M": "migrate diff"}[c.cmd], c.route, c.flags, c.env, c.useEnv, c.list)
 		if obs != none[c.cmd] {
 			w.NonTrivial(c.group)
 		}
 		// (a) the routes of one list agree
 		if j, ok := first[c.group]; ok {
 			if results[j].obs != obs {
-				w.Violation(id, "consumers-route-differs", fmt.Sprintf("%s: observation %q differs from the one of route %s of the same list (%s): %q", desc, obs, cases[j].route, id, results[j].obs))
+				w.Violation(id, "consumers-route-differs", fmt.Sprintf("%s: observation %q differs from the one of route %s of the same list (u%d): %q", desc, obs, cases[j].route, j+1, results[j].obs))
 			}
 		} else {
 			first[c.group] = i
 		}
-		if strings.HasSuffix(c.group, "/Qenv-quote") {
+		if strings.HasSuffix(c.group, "/Qenv-quote") || c.route == "X" {
 			continue // an error is a justified answer (the text is no csv line); nothing to check but the tie
 		}
 		// (b) the reference with the list as written
@@ -503,7 +564,11 @@ func runConsumers(w *out.W, tier string) {
 		}
 		if obs != want {
 			cls := "consumers-state-or-plan-wrong"
-			if c.route == "E" || (c.route == "Q" && c.useEnv) {
+			if c.cmd == "C" && c.route == "E" {
+				cls = "consumers-clean-drops-excluded"
+			} else if c.cmd == "M" && c.route == "E" {
+				cls = "consumers-migrate-diff-plans-excluded"
+			} else if c.route == "E" || (c.route == "Q" && c.useEnv) {
 				cls = "consumers-env-list-not-applied"
 				for _, p := range c.env {
 					if strings.Contains(p, ",") {
